@@ -100,6 +100,32 @@ func init() {
 		}})
 }
 
+func init() {
+	reg(&PropSpec{ID: "C06", Title: "Segment round trip and v5 framing layout", DesignRef: "DESIGN.md §4 C06",
+		Groups: []Group{
+			{Funcs: `^crc\.(ChecksumKoopman|lemmaCrc24Len3|lemmaCrc24Len5)$`, OnlyCt: true},
+			{Funcs: `^\(\*segment\.codec\)\.(writeHeaderDataAndCrc|encodeHeaderUncompressed|encodeHeaderCompressed|writePayloadCrc|EncodeSegment|encodeSegmentUncompressed|decodeSegmentHeader|decodeSegmentPayload|DecodeSegment)$`},
+			{Funcs: `^segment\.lemmaHeaderRoundTrip(Uncompressed|Compressed)$`, OnlyCt: true},
+		},
+		Assume: []string{
+			"hash/crc32.Update is the standard CRC-32 state function of (state, bytes); crc.initialChecksum is that function applied to FA 2D 55 CA (package initialiser, not re-proved)",
+			"the reference CRC-24 routine crc24Ref is a literal transcription of org.apache.cassandra.net.Crc.crc24 (the v5 specification names the CRC but prints no code)",
+			"NOT covered: encodeSegmentCompressed (needs a bound on the compressor's output; the PayloadCompressor contract carries frame conditions only) and the LZ4 algorithm itself (C08); 'header bytes still in place after the payload and trailer were appended' inside encodeSegmentUncompressed is not stated at that level (solvers return unknown) - it follows from the append-only contracts of the callees, which are proved",
+			"the uncompressed fallback is signalled by uncompressed-length 0 as the code and Cassandra's FrameEncoderLZ4 do; the prose of v5 spec 2.3.2 says 'compressed length 0' (DESIGN.md §4 C06)",
+		}})
+	reg(&PropSpec{ID: "C07", Title: "Corrupted segments are rejected, never delivered", DesignRef: "DESIGN.md §4 C07",
+		Groups: []Group{
+			{Funcs: `^crc\.(ChecksumKoopman|lemmaCrc24Len3|lemmaCrc24Len5)$`, OnlyCt: true},
+			{Funcs: `^\(\*segment\.codec\)\.(decodeSegmentHeader|decodeSegmentPayload|DecodeSegment)$`},
+		},
+		Bounded: []string{
+			"NOT proved: that CRC-24 with polynomial 0x1974F0B has minimum distance 8 on 48/64-bit codewords and that CRC-32 detects 1-2 bit errors and bursts <= 32 bits are coding-theory facts about the polynomials (undecided as SMT goals, DESIGN.md §9); what is proved is that the decoder compares all 24/32 bits of exactly those checksums, computed with the specified constants, before it trusts any field or payload byte",
+		},
+		Assume: []string{
+			"hash/crc32.Update computes the IEEE CRC-32 (assumed contract)",
+		}})
+}
+
 // Select returns the functions (keys) of a property with their class filters.
 func (p *PropSpec) Select(w *World) map[string]*Group {
 	out := map[string]*Group{}
